@@ -20,6 +20,7 @@ pytableaux.tools.linked
 from __future__ import annotations
 
 from abc import abstractmethod
+from collections import deque
 from enum import IntEnum
 from itertools import filterfalse
 from typing import (Any, Collection, Iterator, Literal, MutableSequence,
@@ -359,7 +360,7 @@ class linkseq(LinkSequence[_T], MutableSequence[_T]):
             arrival = value
             departure = self._link_at(index)
             self._hook_check((arrival,), (departure.value,))
-            departure.value = arrival
+            self._hook_replace(departure, arrival)
             return
 
         if isinstance(i, slice):
@@ -371,9 +372,9 @@ class linkseq(LinkSequence[_T], MutableSequence[_T]):
             if not len(range_):
                 return
             self._hook_check(arrivals, self[slice_])
-            link_it = iter_links_sliced(self, slice_)
-            for link, arrival in zip(link_it, arrivals):
-                link.value = arrival
+            links = deque(iter_links_sliced(self, slice_))
+            for link, arrival in zip(links, arrivals):
+                self._hook_replace(link, arrival)
             return
 
         raise Emsg.InstCheck(i, (SupportsIndex, slice))
@@ -465,6 +466,10 @@ class linkseq(LinkSequence[_T], MutableSequence[_T]):
 
     def _hook_check(self, arriving, leaving):
         pass
+
+    def _hook_replace(self, link: Link, value, /) -> None:
+        'Replace the value of a link already in the collection.'
+        link.value = value
 
 class linqset(linkseq[_T], MutableSequenceSet[_T]):
     """Mutable ``linqseq`` implementation for hashable values, based on
@@ -566,3 +571,18 @@ class linqset(linkseq[_T], MutableSequenceSet[_T]):
             departures.__contains__,
             filter(self.__contains__, arrivals)):
             raise Emsg.DuplicateValue(v)
+        if len(arrivals) > 1:
+            # Any value repeated among the arrivals is a duplicate.
+            arrivals = tuple(arrivals)
+            if len(set(arrivals)) != len(arrivals):
+                for v in arrivals:
+                    if arrivals.count(v) > 1:
+                        raise Emsg.DuplicateValue(v)
+
+    def _hook_replace(self, link: HashLink, value, /) -> None:
+        # Keep the hash table in step with the link values.
+        table = self.__table
+        if table.get(link.value) is link:
+            del table[link.value]
+        super()._hook_replace(link, value)
+        table[value] = link
